@@ -46,7 +46,7 @@ RULE = ("every storage mode {plain x.csv; compress=True under x.csv / x.zip / x;
         "view, read-only block} x 4 shapes x 5 modes, judged cell by cell by the same oracle.")
 ASSUMPTIONS = [
     "text values made of blanks only are not in the alphabet: a one-column frame holding one is written as a blank line, which the CSV reader skips (a limit of the text format; seen when the value was tried, not judged); values with a leading or a trailing blank are in the alphabet",
-    "missing values (NaN, None, empty text) are outside: the statement speaks of non-empty text and numeric values",
+    "missing text (None, empty text) is outside: the statement speaks of non-empty text; a missing float (NaN) is in the alphabet and must come back missing in a frame with the same number of rows",
     "strings pandas itself re-types on reading ('NA', '1e3', 'True', digits-only text) are outside the stated text alphabet; the header value '9' is kept because comments come back as strings",
     "column names, comment values and text with leading/trailing blanks, a comment value holding a run of >= 10 dashes, keys with upper case / blanks / > 25 characters are outside the enumerated alphabets (the reader strips / re-keys them)",
     "returned dtypes are not compared: text as str(), integers as int(), floats as float(); nrow/ncol compared as str() (they come back as strings)",
@@ -74,7 +74,7 @@ CVALS = ["plain", "with: colon", "x:y:z", "#lead", "a , b", "9", "410730 : Cotte
 CVAL_LABEL = ["plain", "colon", "colons", "hash", "comma", "digit", "spaced-colons"]
 CVALS_X = ["10:00:00 on 2020-01-02", "v=1 (approx. 50%)", "path/to/x.csv", "a - b -- c"]
 FORMATS = ["%0.5f", "%0.2f", "%.10e"]
-FLOATS = [1.5, 0.0, -2.25, 0.123456789, 12345.678915, -4e-6, 0.125]
+FLOATS = [1.5, 0.0, -2.25, 0.123456789, 12345.678915, -4e-6, 0.125, float("nan")]
 FLOATS_X = [1e-7, 2.5e10, 0.005, 99.995]
 FLOAT_REST = [-0.123456789, 1234.000004]     # need more digits than %0.5f keeps: the format matters at k = 1
 INTS = [3, 0, -7, 2 ** 53 + 1, -2 ** 62]
@@ -478,6 +478,13 @@ def check_case(ctx, csv, pd, case):
                                       observed=repr(o), expected=x)
                 else:
                     ctx.count("cell.float")
+                    if x != x:
+                        # a missing value must come back missing (and its row must come back: judged by the row count)
+                        ctx.count("cell.float.nan")
+                        if not (isinstance(o, float) and o != o):
+                            viol("%s:float:nan" % mk, case, "missing float cell of column %r row %d came back as %r" % (c["name"], r, o),
+                                 observed=repr(o), expected="nan")
+                        continue
                     hu = half_unit(x, case["ff"])
                     try:
                         of = float(o)
